@@ -270,7 +270,19 @@ def linear_directed(rnd, cfg):
             left = _d(">", did, "|" + rnd.choice(WEIGHT_TEXTS) + "|")
             tags.add("left_terminal:weight")
     right = _d("<", did) if end_suffix else "[]"
-    ends = [tpl.format(_d(esym, did, _w(rnd, 0.25))) for tpl, esym in end_specs]
+    ends = []
+    for tpl, esym in end_specs:
+        wtxt = _w(rnd, 0.25)
+        if list_weights and not start_prefix and rnd.random() < 0.5:
+            # an end group that may start the chain carries its own list for the first pick ('>' meets heads, '<' meets tails)
+            lw = [0.0] * n_desc
+            for uj in range(n_u):
+                lw[2 * uj + (0 if esym == ">" else 1)] = float(rnd.choice([0, 1, 3, 7]))
+            if sum(lw) == 0:
+                lw[0 if esym == ">" else 1] = 1.0
+            wtxt = "|" + " ".join(_wnum(rnd, x) for x in lw) + "|"
+            tags.add("end_group:list")
+        ends.append(tpl.format(_d(esym, did, wtxt)))
     body = "{" + left + rnd.choice(["", " "]) + _sep(rnd).join(utexts)
     if ends:
         body += _semi(rnd) + _sep(rnd).join(ends)
